@@ -1,4 +1,5 @@
 import Irismod.Props.C09
+import Irismod.Props.C09_Legacy
 open Irismod Irismod.Sdk Irismod.Token Irismod.Props.C09
 #print axioms wf_genesis
 #print axioms wf_step
@@ -34,10 +35,41 @@ open Irismod Irismod.Sdk Irismod.Token Irismod.Props.C09
 #print axioms ownidx_step
 #print axioms ownidx_genesis
 #print axioms ownidx_run
+#print axioms legacy_issue_refines_v1
+#print axioms legacy_edit_refines_v1
+#print axioms legacy_transfer_owner_refines_v1
+#print axioms legacy_mint_refines_v1
+#print axioms legacy_burn_refines_v1
+#print axioms legacy_edit_only_owner
+#print axioms legacy_transfer_only_owner
+#print axioms legacy_mint_only_owner_and_mintable
+#print axioms legacy_edit_by_stranger_rejected
+#print axioms legacy_transfer_by_stranger_rejected
+#print axioms legacy_mint_by_stranger_or_unmintable_rejected
+#print axioms legacy_max_never_below_circulating
+#print axioms legacy_burn_exact
+#print axioms legacy_issue_module_account_zero
+#print axioms legacy_mint_module_account_zero
+#print axioms legacyMinCoin_total
+#print axioms legacy_mint_exact
+#print axioms legacy_burn_exact_call
+#print axioms legacy_unknown_symbol_rejected
+#print axioms Irismod.Proofs.Token.step_norm
+#print axioms Irismod.Proofs.Token.dec_mul_trunc
 -- non-vacuity: from the witness genesis an owner issues, mints within the cap, a holder burns a fraction,
--- ownership moves and the new owner (only) can edit; the invariant's hypotheses hold along the way
+-- ownership moves and the new owner (only) can edit; the invariant's hypotheses hold along the way.
+-- The same through the legacy (v1beta1) service, mixed with v1 messages in one history: a legacy issue, a v1
+-- fractional burn, a legacy mint up to the cap (room 2.5 main units: 2 accepted, then 1 rejected), a legacy burn,
+-- a legacy hand-over after which only the new owner's legacy edit is accepted; a token whose symbol is another
+-- token's min unit is resolved by SYMBOL.
 def demoOps : List Op :=
   [.issue "A0" "abc" "n1" "uabc" 1 2 5 true, .mint "A0" "A1" "uabc" 25, .burn "A1" "uabc" 5,
    .transferOwner "A0" "A2" "abc", .edit "A2" "abc" "n2" 5 "false"]
 def demo : State := run witnessState demoOps
-#eval s!"nonvacuous {supplyOf demo "uabc" == 40 && burnedOf demo "uabc" == 5 && Spec.C09.ownerOf demo "abc" == some "A2" && (step demo (.edit "A0" "abc" "x" 0 "")).toOption.isNone && (step demo (.edit "A2" "abc" "x" 4 "")).toOption.isSome && Spec.C09.wfB demo && Spec.C09.ownIdxB demo}"
+def legacyOps : List Op :=
+  [.legacyIssue "A0" "abc" "n1" "uabc" 1 2 5 true, .issue "A0" "abcx" "n2" "abc" 2 7 0 true,
+   .burn "A0" "uabc" 5, .legacyMint "A0" "A1" "abc" 3, .legacyMint "A0" "A1" "abc" 1,
+   .legacyBurn "A1" "abc" 2, .legacyTransferOwner "A0" "A2" "abc", .legacyEdit "A0" "abc" "x" 4 "",
+   .legacyEdit "A2" "abc" "x" 4 "false", .legacyMint "A0" "" "abcx" 1]
+def ldemo : State := run witnessState legacyOps
+#eval s!"nonvacuous {supplyOf demo "uabc" == 40 && burnedOf demo "uabc" == 5 && Spec.C09.ownerOf demo "abc" == some "A2" && (step demo (.edit "A0" "abc" "x" 0 "")).toOption.isNone && (step demo (.edit "A2" "abc" "x" 4 "")).toOption.isSome && Spec.C09.wfB demo && Spec.C09.ownIdxB demo && supplyOf ldemo "uabc" == 20 - 5 + 30 - 20 && burnedOf ldemo "uabc" == 25 && balOf ldemo "A1" "uabc" == 10 && Spec.C09.ownerOf ldemo "abc" == some "A2" && (AMap.get? ldemo.tokens "abc").map (·.maxSupply) == some 4 && supplyOf ldemo "abc" == 700 + 100 && (step ldemo (.legacyMint "A2" "" "abc" 1)).toOption.isNone && (step ldemo (.legacyBurn "A1" "abc" 1)).toOption.isSome && (step ldemo (.legacyBurn "A1" "abc" 0)).toOption.isNone && Spec.C09.wfB ldemo && Spec.C09.ownIdxB ldemo}"
